@@ -146,7 +146,7 @@ def check_ops(F, rule, N=3):
         h = F.hir(fn)
         if not rule.anchor(h, fn):
             continue
-        pnames = [p.get("name") for p in h["params"]][1:]
+        pnames = [SY.param_name(F, fn, i) for i in range(len(h["params"]))][1:]
         if not rule.require(pnames == params, (fn, "signature"), "%s has parameters %s, the model expects %s" % (fn, pnames, params)):
             continue
         ok_all = True
